@@ -10,7 +10,7 @@ for mf in sorted(glob.glob(V+'/seeded/*/meta.json')):
     if not what:
         files = re.findall(r'^\+\+\+ b/(\S+)', open(os.path.dirname(mf)+'/patch.diff').read(), re.M)
         what = ', '.join(files) + ' — needs: ' + m.get('needs_to_manifest','')
-    rows.append((m['id'], m['property'], what.replace('|','/').replace('\n',' ')[:160], str(m.get('detected_by_check','')).replace('|','/')))
+    rows.append((m['id'], m['property'], what.replace('|','/').replace('\n',' ')[:260], str(m.get('detected_by_check','')).replace('|','/')))
 out=[]
 out.append('### 7.1 Changes seeded by independent sub-agents (`/verif/seeded/<id>/`)\n')
 out.append('Each was produced by a fresh sub-agent that saw only the property text and a scratch worktree, '
